@@ -631,14 +631,17 @@ def cases(tier, seed):
             groups = 24 if size < SMALL else (16 if size < MEDIUM else 4)
         else:
             groups = 2 if size < SMALL else 1
-            if rec["path"].startswith("ttLib/tables/data/aots/") and rnd.random() < 0.5:
+            if rec["path"].startswith("ttLib/tables/data/aots/"):
+                # 206 structurally alike lookup-test fonts: a seed-dependent third of them in quick
+                if rnd.random() < 0.67:
+                    continue
                 groups = 1
         out.append({"id": cid, "kind": "font", "src": "corpus", "path": rec["path"], "member": rec["member"],
                     "groups": groups, "seed": seed, "timeout": 300 if size < MEDIUM else 900})
     for name in G.NAMES:
         big = name.startswith("loca_") and name != "loca_odd_small"       # 128 KB glyf tables
         out.append({"id": "gen:" + name, "kind": "font", "src": "gen", "name": name,
-                    "groups": (8 if big else 24) if T else (3 if big else 4), "seed": seed, "timeout": 900 if big else 300})
+                    "groups": (8 if big else 24) if T else (2 if big else 4), "seed": seed, "timeout": 900 if big else 300})
     for n in G.TABLE_COUNTS if T else G.TABLE_COUNTS_QUICK:
         out.append({"id": "tables:%d" % n, "kind": "tables", "n": n, "seed": seed})
     ttcs = sorted({r["path"] for r in corpus.fonts() if r["ext"] == "ttc"})
@@ -646,6 +649,22 @@ def cases(tier, seed):
         out.append({"id": "ttc-corpus:" + path, "kind": "ttc", "src": "corpus", "path": path, "seed": seed})
     for i in range(12 if T else 4):
         out.append({"id": "ttc-built:%d" % i, "kind": "ttc", "src": "built", "index": i, "seed": seed})
+    for i in range(12 if T else 4):
+        out.append({"id": "ttc-collide:%d" % i, "kind": "ttc", "src": "collide", "index": i, "seed": seed})
+    # stale derived fields in the binary, lazily loaded, partially touched, recalculating save
+    for rec in corpus.fonts():
+        if rec["outlines"] != "glyf" or rec["flavor"] is not None or (rec["ext"] == "ttc" and rec["member"] is None):
+            continue
+        if not T and (rec["size"] >= MEDIUM or (rec["kind"] == "ttx" and rnd.random() < 0.6)):
+            continue            # quick: binaries, and a seed-dependent 40 % of the (slow to import) TTX sources
+        out.append({"id": "stale:%s%s" % (rec["path"], "" if rec["member"] is None else "#%d" % rec["member"]),
+                    "kind": "stale", "src": "corpus", "path": rec["path"], "member": rec["member"],
+                    "variants": 6 if T else 2, "seed": seed, "timeout": 300 if rec["size"] < MEDIUM else 900})
+    for name in G.NAMES:
+        if name.startswith("loca_") and name != "loca_odd_small" or name.startswith("cff"):
+            continue
+        out.append({"id": "stale-gen:" + name, "kind": "stale", "src": "gen", "name": name,
+                    "variants": 6 if T else 2, "seed": seed})
     for w in (WORKLOADS_THOROUGH if T else WORKLOADS_QUICK):
         out.append({"id": "workload:" + w, "kind": "workload", "what": w, "seed": seed, "timeout": 300})
     return out
